@@ -3,6 +3,8 @@
 -/
 import GraphiqModel.Proofs.Convert
 import GraphiqModel.Proofs.StateToGraph
+import GraphiqModel.Proofs.StateToGraphRoundTrip
+import GraphiqModel.Proofs.GraphStateGroup
 namespace Graphiq.C08
 open Graphiq Graphiq.PRow Graphiq.Tab Graphiq.STab
 
@@ -94,6 +96,51 @@ example : (match S2G.stateToGraph bellMinus with
 example : (match S2G.stateToGraph (STab.zero 1) with | .ok _ => false | .error e => e == Err.assertion) = true := by
   decide +kernel
 
+/-! ### graph states: the round trip, the tableau is a state, both constructions give the same state -/
+
+/-- the triangle graph -/
+def tri : Nat → Nat → Bool := fun i j => i != j && i < 3 && j < 3
+
+/-- **graph → stabilizer → graph** (every n ≥ 1, every simple graph): the modelled `state_to_graph` applied to
+    `graph_to_stabilizer(G)` returns `G` itself and an EMPTY gate list (so the gates are trivially the identity on the state),
+    and `stabilizer_to_graph(validate=True)` returns `G` -/
+theorem graph_round_trip (n : Nat) (hn : 0 < n) (adj : Adj) (hsym : ∀ i j, i < n → j < n → adj i j = adj j i)
+    (hirr : ∀ i, i < n → adj i i = false) :
+    (∃ g, S2G.stateToGraph (graphSTab n adj) = .ok (g, []) ∧ ∀ i j, i < n → j < n → g.f i j = adj i j) ∧
+    (∃ g, S2G.stabilizerToGraph (graphSTab n adj) = .ok g ∧ ∀ i j, i < n → j < n → g.f i j = adj i j) :=
+  ⟨stateToGraph_graph n hn adj hsym hirr, stabilizerToGraph_graph n hn adj hsym hirr⟩
+
+/-- **`graph_to_stabilizer(G)` is a stabilizer state** (every n, every symmetric `adj`): the generators are real and commute
+    (`Good`), they are independent (an ordered product of distinct generators has trivial X part only if it is the empty
+    product — and every group element is such a product), and `−I` (or `±iI`) is not in the group: the only element with trivial
+    Pauli part is `+I` -/
+theorem graph_tableau_is_state (n : Nat) (adj : Adj) (hsym : ∀ i j, i < n → j < n → adj i j = adj j i) :
+    (graphSTab n adj).Good ∧
+    (∀ p, (graphSTab n adj).Spn p → ∃ c : Nat → Bool, EqOn n p (prodTo (graphSTab n adj) c n)) ∧
+    (∀ c : Nat → Bool, (∀ j, j < n → (prodTo (graphSTab n adj) c n).x j = false) → ∀ i, i < n → c i = false) ∧
+    (∀ p, (graphSTab n adj).Spn p → (∀ j, j < n → p.x j = false) → EqOn n p PRow.one) :=
+  ⟨graphSTab_good n adj hsym, fun p hp => spn_normal_form (graphSTab n adj) (graphSTab_good n adj hsym) p hp,
+   graphSTab_independent n adj, fun p hp hx => graphSTab_no_minus_one n adj hsym p hp hx⟩
+
+/-- **graph → density and graph → stabilizer denote the same state** (every n, every edge list with distinct endpoints whose
+    parity matrix is `adj` — for a simple graph: its edge list): |+…+⟩ followed by one CZ per edge generates exactly the signed
+    group of the tableau `[I | adj]` -/
+theorem graph_to_density_same_state_as_graph_to_stabilizer (n : Nat) (adj : Adj) (edges : List (Nat × Nat))
+    (hne : ∀ e, e ∈ edges → e.1 ≠ e.2) (hA : ∀ i j, i < n → j < n → adj i j = edgeParity edges i j) :
+    (czEdges (plusSTab n) edges).n = n ∧
+    ∀ p, (czEdges (plusSTab n) edges).Spn p ↔ (graphSTab n adj).Spn p := by
+  have s := czEdges_spanEq_graphSTab n adj edges hne hA
+  exact ⟨s.n_eq, fun p => ⟨s.sub p, s.sup p⟩⟩
+
+/-- non-vacuity: the triangle with its three edges -/
+example : (∀ i j, i < 3 → j < 3 → tri i j = tri j i) ∧ (∀ i, i < 3 → tri i i = false) ∧
+    (∀ e, e ∈ [(0, 1), (1, 2), (0, 2)] → e.1 ≠ e.2) ∧
+    (∀ i j, i < 3 → j < 3 → tri i j = edgeParity [(0, 1), (1, 2), (0, 2)] i j) := by
+  refine ⟨fun i j hi hj => ?_, by decide, by decide, fun i j hi hj => ?_⟩ <;>
+    (have h1 : i = 0 ∨ i = 1 ∨ i = 2 := by omega
+     have h2 : j = 0 ∨ j = 1 ∨ j = 2 := by omega
+     rcases h1 with rfl | rfl | rfl <;> rcases h2 with rfl | rfl | rfl <;> decide)
+
 /- Not theorems of this development (kept visible): (1) `state_to_graph` succeeds on every stabilizer state — false on the current
    code (known finding D40: the Hadamard-position heuristic `_position_finder` fails, e.g. on the one-qubit |0⟩, refuted above;
    known finding D49: the float determinant is truncated); (2) the density-matrix side (negativity-based edge detection) —
@@ -101,7 +148,6 @@ example : (match S2G.stateToGraph (STab.zero 1) with | .ok _ => false | .error e
    soundness (`state_to_graph_sound` quantifies over every candidate inverse), compared per input by the harness. -/
 
 /-! ### Non-vacuity: the triangle graph through both constructions -/
-def tri : Nat → Nat → Bool := fun i j => i != j && i < 3 && j < 3
 example : (List.range 3).all (fun i => (List.range 3).all fun j =>
     ((czEdges (plusSTab 3) [(0, 1), (1, 2), (0, 2)]).row i).z j == ((graphSTab 3 tri).row i).z j) = true := by decide
 example : checkConversion (graphSTab 3 tri) [] tri = true := by decide +kernel
